@@ -23,6 +23,9 @@ structure FactsSoap where
   /-- an envelope whose Body has no child is answered with a Client fault (otherwise
       `body_document.tag` raises AttributeError on `None`, D13) -/
   emptyBodyGuard : Bool
+  /-- `Soap11.serialize` treats a tuple assigned to `ctx.out_header` as the sequence of header objects
+      (like a list); otherwise the tuple is handed to the first header class as one object -/
+  outHeaderTupleOk : Bool
   deriving Repr, DecidableEq
 
 /-- the service's methods: request tag key `{tns}name` ↦ the in-message class -/
@@ -69,6 +72,145 @@ def soapServerDecode (F : Facts08) (X : FactsXml) (S : FactsSoap) (cfg : Cfg) (I
 /-- `Soap11.serialize` for a wrapped response without headers -/
 def envelope (ver : Version) (body : List Node) : Node :=
   .elem (envNs ver) "Envelope".toList [] none [.elem (envNs ver) "Body".toList [] none body]
+
+/-! ## SOAP headers -/
+
+/-- the key under which `Soap11.deserialize` looks a header class up: `{__namespace__}__type_name__` -/
+def headerKey : Ty → Text
+  | .obj name ns _ _ _ => clark ns name
+  | _ => []
+
+def nodeKey (x : Node) : Text := clark x.ns x.name
+
+/-- `dict((element.tag, element) for element in in_header_doc).get(key)`: the LAST element with that tag -/
+def hdrLookup (hdr : List Node) (key : Text) : Option Node :=
+  (hdr.filter (fun c => nodeKey c = key)).getLast?
+
+/-- the header loop of `Soap11.deserialize`: one slot per declared header class, in declared order;
+    a class without element stays `None`; unknown header elements are ignored -/
+def decodeHeaders (F : Facts08) (X : FactsXml) (cfg : Cfg) (I : Iface) (hdr : List Node) :
+    List Ty → Outcome (List Val)
+  | [] => .ok []
+  | h :: hs =>
+    match (match hdrLookup hdr (headerKey h) with
+           | none => Outcome.ok Val.none
+           | some e => fromElement F X cfg I h e) with
+    | .ok v =>
+      (match decodeHeaders F X cfg I hdr hs with
+       | .ok vs => .ok (v :: vs)
+       | .fault => .fault
+       | .crash e => .crash e)
+    | .fault => .fault
+    | .crash e => .crash e
+
+/-- `ctx.in_header = headers[0] if len(headers) == 1 else headers` -/
+def inHeaderValue : List Val → Val
+  | [v] => v
+  | vs => .list vs
+
+/-- what user code assigned to `ctx.out_header` -/
+inductive OutHeader where
+  | none
+  | single (v : Val)
+  | list (vs : List Val)
+  | tuple (vs : List Val)
+  deriving Repr, Inhabited
+
+/-- `zip(header_message_class, out_headers)` → one `to_parent` per pair -/
+def headerPairs (F : Facts08) (cfg : Cfg) (I : Iface) : List Ty → List Val → List Node
+  | h :: hs, v :: vs =>
+    (match h with
+     | .obj name ns _ _ _ => toParent F cfg I ns name h v
+     | _ => []) ++ headerPairs F cfg I hs vs
+  | _, _ => []
+
+/-- the `Header` children `Soap11.serialize` writes (`none` = no Header element at all).
+    A tuple that is not recognised as a sequence is given to the first header class as ONE object, which
+    `get_serialization_instance` then takes apart positionally: user-visible breakage, modelled as a crash. -/
+def headerNodes (F : Facts08) (S : FactsSoap) (cfg : Cfg) (I : Iface) (classes : Option (List Ty)) (out : OutHeader) :
+    Outcome (Option (List Node)) :=
+  match classes, out with
+  | _, .none => .ok none
+  | none, _ => .ok none
+  | some hs, .single v => .ok (some (headerPairs F cfg I hs [v]))
+  | some hs, .list vs => .ok (some (headerPairs F cfg I hs vs))
+  | some hs, .tuple vs =>
+    if S.outHeaderTupleOk then .ok (some (headerPairs F cfg I hs vs)) else .crash "TypeError"
+
+/-- envelope with an optional Header (written before the Body) -/
+def envelopeH (ver : Version) (hdr : Option (List Node)) (body : List Node) : Node :=
+  match hdr with
+  | none => envelope ver body
+  | some hs => .elem (envNs ver) "Envelope".toList [] none
+      [.elem (envNs ver) "Header".toList [] none hs, .elem (envNs ver) "Body".toList [] none body]
+
+/-- `ctx.in_header_doc`: the children of the first Header element (`None` without a Header) -/
+def headerDoc (ver : Version) (doc : Node) : Option (List Node) :=
+  match childrenNamed (envNs ver) "Header".toList doc with
+  | [] => none
+  | h :: _ => some h.children
+
+/-- `ctx.in_header` for a request whose method declares the header classes `classes` -/
+def soapInHeader (F : Facts08) (X : FactsXml) (cfg : Cfg) (I : Iface) (ver : Version)
+    (classes : Option (List Ty)) (doc : Node) : Outcome (Option Val) :=
+  match headerDoc ver doc, classes with
+  | some hdr, some hs =>
+    (match decodeHeaders F X cfg I hdr hs with
+     | .ok vs => .ok (some (inHeaderValue vs))
+     | .fault => .fault
+     | .crash e => .crash e)
+  | _, _ => .ok none
+
+/-- Soap11 / Soap12 request processing with headers: `ok (method key, ctx.in_header, ctx.in_object)`.
+    `hdrs key` are the declared in-header classes of the method. Headers are deserialised before the body. -/
+def soapServerDecodeH (F : Facts08) (X : FactsXml) (S : FactsSoap) (cfg : Cfg) (I : Iface) (ver : Version)
+    (ms : Methods) (hdrs : Text → Option (List Ty)) (doc : Node) : Outcome (Text × Option Val × Val) :=
+  match soapServerDecode F X S cfg I ver ms doc with
+  | .ok (k, v) =>
+    (match soapInHeader F X cfg I ver (hdrs k) doc with
+     | .ok h => .ok (k, h, v)
+     | .fault => .fault
+     | .crash e => .crash e)
+  | .fault => .fault
+  | .crash e => .crash e
+
+/-! ## body styles -/
+
+/-- `MethodDescriptor.body_style` -/
+inductive Style where | wrapped | bare | outBare | empty | emptyOutBare
+  deriving Repr, DecidableEq
+
+def Style.inWrapped : Style → Bool
+  | .bare => false
+  | _ => true
+
+def Style.outWrapped : Style → Bool
+  | .wrapped => true
+  | _ => false
+
+/-- the positional arguments the user function is called with (`Application.process_request`):
+    the members of the in-message instance, or the single bare argument, or nothing -/
+def argsOf (style : Style) (inObj : Val) : List Val :=
+  match style with
+  | .bare => [inObj]
+  | .empty => []
+  | _ => (match inObj with | .obj _ fs => fs.map (·.2) | _ => [])
+
+/-- the out-object for the declared return values `rets` (one per out-message member when wrapped) -/
+def outObject (outMsg : Ty) (rets : List Val) : Val :=
+  match outMsg with
+  | .obj name _ _ fields _ => .obj name (fields.zipWith (fun f v => (f.1, v)) (rets ++ List.replicate fields.length Val.none))
+  | _ => .none
+
+/-- the body entry of the response: the wrapper object `{tns}<out message>` with one member per return
+    value, or — for the non-wrapped styles — the single return value itself as `{tns}<out name>` -/
+def responseNodes (F : Facts08) (cfg : Cfg) (I : Iface) (style : Style) (outName : Text) (outMsg : Ty)
+    (rets : List Val) : List Node :=
+  if style.outWrapped then
+    (match outMsg with
+     | .obj name _ _ _ _ => toParent F cfg I I.tns name outMsg (outObject outMsg rets)
+     | _ => [])
+  else toParent F cfg I I.tns outName outMsg (rets.headD .none)
 
 end Soap
 end SpyneModel
